@@ -225,7 +225,7 @@ func (e *Exec) frameFormula(fr *Frame, st *State, h string) (string, bool) {
 	if fr.fc == nil || fr.fc.ModAll || fr.fc.Flags["noframe"] != "" || fr.entry == nil {
 		return "", false
 	}
-	if h == "G_alloc" || h == "G_clock" || h == "GU_broadcasts" || strings.HasPrefix(h, "G_visited") || strings.HasPrefix(h, "GS_") {
+	if h == "G_alloc" || h == "G_clock" || h == "GU_broadcasts" || h == "GU_dbputs" || h == "GD_writable" || strings.HasPrefix(h, "G_visited") || strings.HasPrefix(h, "GS_") {
 		return "", false
 	}
 	cur := e.hget(st, h)
